@@ -23,6 +23,9 @@ def c12_jobs(tier):
                                           kind="valid" if level == 2 else "py", transform=tr))
                 for level in (0, 2):
                     jobs.append(J("h_fl:HFL", D=D, n_filled=n, cache=max(n, 1), level=level, op="add", record=True, kind="py"))
+                if n in (1, 2):   # pre-evaluated additions under unspecified noise, with and without an SD
+                    for add_sd in (False, True):
+                        jobs.append(J("h_fl:HFL", D=D, n_filled=n, cache=max(n, 1), level=1, op="add", record=True, kind="py", add_sd=add_sd))
         # first record into exactly the state the real __init__ builds (array aliasing / wrong initial counters show here)
         for cache in (1, 2):
             for level in (0, 1, 2):
@@ -341,6 +344,10 @@ def sb_jobs(tier, cons=False):
     if tier == "thorough":
         jobs.append(J("h_sb:HSBounds", D=2, k=-10))
     names = ("affine", "tight", "unbounded", "log", "logtight", "offgrid", "offgrid2")
+    # every documented way of selecting the noise mode (an option left out keeps its default None / False)
+    for user in ({}, {"uncertainty_handling": True}, {"uncertainty_handling": False}, {"specify_target_noise": True},
+                 {"specify_target_noise": True, "uncertainty_handling": True}, {"specify_target_noise": False, "uncertainty_handling": True}):
+        jobs.append(J("h_sb:HSInit", D=1, geom=["affine"], cons="bool" if cons else None, nonlinear=True, user=user))
     for g in names:
         jobs.append(J("h_sb:HSInit", D=1, geom=[g], cons="bool" if cons else None, nonlinear=True))
     for pair in (("log", "unbounded"), ("offgrid2", "offgrid2"), ("tight", "logtight"), ("affine", "log")):
@@ -737,7 +744,7 @@ def c09_jobs(tier):
 C09_LABELS = {"returned_value_is_scalar", "target_values_support_item_as_callers_require", "refit_and_calibration_flags_are_booleans", "refit_resets_statistics",
               "linalg_failures_do_not_abort", "empty_search_set_only_without_survivors", "valid_definition_not_rejected_by_init",
               "training_restarts_at_least_final_value", "training_restarts_at_most_initial_value", "training_options_complete", "initial_design_size_recorded",
-              "valid_value_accepted", "merge_into_own_record"}
+              "valid_value_accepted", "merge_into_own_record", "noise_mode_follows_user_options"}
 PROPS["C09"] = dict(
     jobs=c09_jobs, labels=C09_LABELS, required=sorted(C09_LABELS - {"valid_definition_not_rejected_by_init", "valid_value_accepted"}), exc_is_violation=True,
     bounds=dict(quick="unit level: every harness of this framework is run in the modes of the statement (noise level 0/1/2, constraints on/off, affine/log) with the obligation 'no exception outside the declared set on any feasible path'; rare internal histories: empty search set, every ES candidate infeasible, merged observation under specified noise, non-finite GP prediction, 0..3 saved GP statistics, LinAlgError schedules, early stop of a noisy run",
